@@ -484,6 +484,26 @@ func (env *SpecEnv) evalCall(e *SExpr) Val {
 			t = app("s-arr", v.T)
 		}
 		return Val{T: app("<=", t, fc.heapGet(env.st(), "$alloc", "Int")), Ty: tBool}
+	case "elt": // elt(s, k, i) == s[k+i], as an application whose last argument is i itself: a quantifier
+		// over i triggered on elt(s, k, i) matches whatever index expression is used (E-matching is syntactic:
+		// a pattern (select c (+ base i)) does not match (select c (+ base n 4)))
+		sv := arg(0)
+		var elem types.Type
+		switch t := sv.Ty.Underlying().(type) {
+		case *types.Slice:
+			elem = t.Elem()
+		case *types.Array: // ghost array value
+			elem = t.Elem()
+		default:
+			env.fail(e, "elt: first argument must be a slice or a ghost array")
+		}
+		fn := fc.eltFn(elem)
+		if _, ok := sv.Ty.Underlying().(*types.Array); ok {
+			return Val{T: app(fn, sv.T, fc.toIdx(arg(1)), fc.toIdx(arg(2))), Ty: elem}
+		}
+		key, srt := fc.elemsKey(elem)
+		c := app("select", fc.heapGet(env.st(), key, srt), app("s-arr", sv.T))
+		return Val{T: app(fn, c, fc.addIdx(app("s-off", sv.T), fc.toIdx(arg(1))), fc.toIdx(arg(2))), Ty: elem}
 	case "arrid":
 		return Val{T: app("s-arr", arg(0).T), Ty: types.Typ[types.Uintptr]}
 	case "off":
